@@ -444,10 +444,18 @@ class SecopClient(ProxyClient):
             while self._running:
                 while self.cleanup:
                     entry = self.cleanup.pop()
-                    for key, prev in self.active_requests.items():
-                        if prev is entry:
-                            self.active_requests.pop(key)
-                            break
+                    requeue = []
+                    # the tx thread inserts concurrently: lock and iterate over a copy
+                    with self._request_lock:
+                        for key, prev in list(self.active_requests.items()):
+                            if prev is entry:
+                                self.active_requests.pop(key)
+                                # the key is free now: requests parked on it must be sent
+                                while not self.pending.empty():
+                                    requeue.append(self.pending.get())
+                                break
+                    for parked in requeue:
+                        self.txq.put(parked)
                 # may raise ConnectionClosed
                 reply = self.io.readline()
                 if reply is None:
